@@ -59,10 +59,14 @@ func profileFor(prop string, tier string) *Profile {
 	case "C03":
 		p.W = map[string]int{"ent": 40, "gov": 6, "bank": 2, "wrk": 3, "multi": 3, "nest": 2}
 		p.Dt = []int64{1, 400, 1000, 1000, 2000, 5000, 5000, 30000, 60000, 600000, 86400000}
+		p.Export, p.ExportPct = true, 5
 	case "C04", "C05":
 		p.W = map[string]int{"ent": 25, "wrk": 12, "bcn": 12, "bank": 5, "attack": 8, "multi": 5, "nest": 3, "gov": 2, "str": 4, "stake": 2, "feegrant": 4}
 		p.Dt = dtShort
 		p.FaultPct = 20
+		if prop == "C04" {
+			p.Export, p.ExportPct = true, 4
+		}
 	case "C06":
 		p.W = map[string]int{"wrk": 25, "bcn": 25, "ent": 10, "gov": 5, "bank": 3, "multi": 10, "nest": 6}
 		p.CheckPct = 100
